@@ -228,6 +228,7 @@ template <class Db> void partB(const Args& a, Counters& c) {
     for (auto& s : absent_queries<Db>(reg, true)) qs.push_back(s);
     // one isolated case per name query (so each failing query is reported), then one case for ids+indices
     run_isolated((long)qs.size() + 1, 2, [&](long i) {
+      g_viol_per_key.clear();
       typename K::Stock mgr(n, heap);
       Stats st;
       if (i < (long)qs.size()) {
